@@ -56,6 +56,7 @@ class Proc:
         self.cur_stmt = None
         self.cur_mod = None
         self.low_priority = False     # inside a modelled sleep: runs only when nobody else can
+        self.frozen = False           # an exception is unwinding: keep the location where it was raised
 
     def finished(self) -> bool:
         return self.state in ('done', 'raised', 'error', 'killed')
@@ -818,6 +819,7 @@ class World:
         self.conn_owner: Dict[str, str] = {}
         self.conn_where: Dict[str, list] = {}
         self.put_log: list = []
+        self.engines: list = []
         self.files: List[AFile] = []
         self.log_records: list = []
         self.queue_names: Dict[int, str] = {}
@@ -999,15 +1001,20 @@ class World:
         b = self._board_for('auction')
         if b > len(self.val['boards']):
             raise FoldRaise('Exception', 'more auctions than boards')
-        return ABidding(self, self.role(), b, dealer, vul)
+        e = ABidding(self, self.role(), b, dealer, vul)
+        self.engines.append(('auction', self.role(), b, e))
+        return e
 
     def _mk_play(self, a, k, full):
         b = self.engine_count.get((self.role(), 'auction'), 0)
         contract = k.get('contract', a[0] if a else None)
         if full:
-            return APlay(self, self.role(), b, contract, hands=k.get('hands', a[1] if len(a) > 1 else None))
-        return APlay(self, self.role(), b, contract, observer=k.get('player', a[1] if len(a) > 1 else None),
-                     hand=k.get('hand', a[2] if len(a) > 2 else None))
+            e = APlay(self, self.role(), b, contract, hands=k.get('hands', a[1] if len(a) > 1 else None))
+        else:
+            e = APlay(self, self.role(), b, contract, observer=k.get('player', a[1] if len(a) > 1 else None),
+                      hand=k.get('hand', a[2] if len(a) > 2 else None))
+        self.engines.append(('play', self.role(), b, e))
+        return e
 
     # -- threads ------------------------------------------------------------------------------------------------------------
     def _proc_body(self, thunk):
@@ -1017,7 +1024,7 @@ class World:
             p.folder = f
 
             def on_stmt(st, env, mod, ci):
-                if not self.sched.killing and p.state == 'running':
+                if not self.sched.killing and p.state == 'running' and not p.frozen:
                     p.cur_stmt, p.cur_mod = st, mod
             f.on_stmt = on_stmt
             return thunk(f)
@@ -1060,6 +1067,9 @@ class World:
             try:
                 f.steps = 0
                 return f._getattr_call(srv, 'run', [], {})
+            except BaseException:
+                self.sched.current.frozen = True
+                raise
             finally:
                 try:
                     f._getattr_call(srv, '__exit__', [None, None, None], {})
@@ -1078,6 +1088,9 @@ class World:
             try:
                 f.steps = 0
                 return f._getattr_call(c, 'run', [], {})
+            except BaseException:
+                self.sched.current.frozen = True
+                raise
             finally:
                 try:
                     f._getattr_call(c, '__exit__', [None, None, None], {})
